@@ -1873,7 +1873,7 @@ foamToSExpr0(Foam foam)
 		case 'h':
 		case 'w':
 		case 'i':
-			if (isDecl && argf[fi] == 'w') {
+			if (foamTag(foam) == FOAM_Decl && argf[fi] == 'w') {
 				li = -1;
 			} else {
 				li = (long) foamArgv(foam)[si].data;
